@@ -475,13 +475,15 @@ theorem set_gas (c : Cfg K V) (s : St K V) (k : K) (v : V) :
   split
   · exact Int.le_refl _
   · split
-    · split
-      · exact Int.le_refl _
-      · next g hg =>
-        have := consumeStrict_some _ _ _ hg
-        subst this
-        simp only [Gas.consumeAlways]; omega
     · exact Int.le_refl _
+    · split
+      · split
+        · exact Int.le_refl _
+        · next g hg =>
+          have := consumeStrict_some _ _ _ hg
+          subst this
+          simp only [Gas.consumeAlways]; omega
+      · exact Int.le_refl _
 
 theorem del_gas (c : Cfg K V) (s : St K V) (k : K) :
     s.gas.consumed ≤ (s.del c k).gas.consumed := by
@@ -501,18 +503,20 @@ theorem set_WF (c : Cfg K V) (s : St K V) (wf : s.WF) (k : K) (v : V) : (s.set c
   obtain ⟨w1, w2, w3⟩ := wf
   unfold St.set
   split
-  · next o ho =>
-    refine ⟨w1, ?_, w3⟩
-    intro o' ho'
-    simp only [Option.some.injEq] at ho'
-    subst ho'
-    exact nodup_akeys_upsert _ _ _ (w2 o ho)
-  · next ho =>
-    split
-    · split
-      · exact ⟨w1, w2, w3⟩
+  · exact ⟨w1, w2, w3⟩
+  · split
+    · next o ho =>
+      refine ⟨w1, ?_, w3⟩
+      intro o' ho'
+      simp only [Option.some.injEq] at ho'
+      subst ho'
+      exact nodup_akeys_upsert _ _ _ (w2 o ho)
+    · next ho =>
+      split
+      · split
+        · exact ⟨w1, w2, w3⟩
+        · exact ⟨nodup_akeys_upsert _ _ _ w1, w2, w3⟩
       · exact ⟨nodup_akeys_upsert _ _ _ w1, w2, w3⟩
-    · exact ⟨nodup_akeys_upsert _ _ _ w1, w2, w3⟩
 
 theorem del_WF (c : Cfg K V) (s : St K V) (wf : s.WF) (k : K) : (s.del c k).WF := by
   obtain ⟨w1, w2, w3⟩ := wf
@@ -537,8 +541,10 @@ theorem set_data (c : Cfg K V) (s : St K V) (k : K) (v : V) :
   split
   · exact ⟨rfl, rfl⟩
   · split
-    · split <;> exact ⟨rfl, rfl⟩
     · exact ⟨rfl, rfl⟩
+    · split
+      · split <;> exact ⟨rfl, rfl⟩
+      · exact ⟨rfl, rfl⟩
 
 theorem del_data (c : Cfg K V) (s : St K V) (k : K) :
     (s.del c k).tree = s.tree ∧ (s.del c k).metered = s.metered := by
@@ -556,39 +562,53 @@ theorem GasOnly.WF {s s' : St K V} (h : GasOnly s s') (wf : s.WF) : s'.WF := by
 
 /-! ### views after writes -/
 
+/-- the TOMBSTONE marker is refused as a value, whatever the state -/
+theorem set_tomb (c : Cfg K V) (s : St K V) (k : K) : s.set c k c.tomb = (s, .errReserved) := by
+  simp [St.set]
+
 theorem set_sess (c : Cfg K V) (s : St K V) (o : List (K × V)) (hs : s.sess = some o) (k : K)
-    (v : V) : s.set c k v = ({ s with sess := some (upsert o k v) }, true) := by
-  simp [St.set, hs]
+    (v : V) (hv : v ≠ c.tomb) :
+    s.set c k v = ({ s with sess := some (upsert o k v) }, .ok) := by
+  simp [St.set, hs, hv]
 
 theorem del_sess (c : Cfg K V) (s : St K V) (o : List (K × V)) (hs : s.sess = some o) (k : K) :
     s.del c k = { s with sess := some (upsert o k c.tomb) } := by
   simp [St.del, hs]
 
 theorem set_nosess_unmetered (c : Cfg K V) (s : St K V) (hs : s.sess = none)
-    (hm : s.metered = false) (k : K) (v : V) :
-    s.set c k v = ({ s with cache := upsert s.cache k v }, true) := by
-  simp [St.set, hs, hm]
+    (hm : s.metered = false) (k : K) (v : V) (hv : v ≠ c.tomb) :
+    s.set c k v = ({ s with cache := upsert s.cache k v }, .ok) := by
+  simp [St.set, hs, hm, hv]
+
+/-- a `Set` that reports success did not carry the TOMBSTONE marker -/
+theorem set_ok_ne_tomb (c : Cfg K V) (s : St K V) (k : K) (v : V) (h : (s.set c k v).2 = .ok) :
+    v ≠ c.tomb := by
+  intro e
+  subst e
+  rw [set_tomb] at h
+  cases h
 
 theorem del_nosess_unmetered (c : Cfg K V) (s : St K V) (hs : s.sess = none)
     (hm : s.metered = false) (k : K) :
     s.del c k = { s with cache := upsert s.cache k c.tomb } := by
   simp [St.del, hs, hm]
 
-theorem view_set_gen (c : Cfg K V) (s : St K V) (hm : s.metered = false) (k : K) (v : V) :
-    (s.set c k v).2 = true ∧ view c (s.set c k v).1 = upd (view c s) k (dec c v) := by
+theorem view_set_gen (c : Cfg K V) (s : St K V) (hm : s.metered = false) (k : K) (v : V)
+    (hv : v ≠ c.tomb) :
+    (s.set c k v).2 = .ok ∧ view c (s.set c k v).1 = upd (view c s) k (some v) := by
   cases hs : s.sess with
   | some o =>
-    rw [set_sess c s o hs]
+    rw [set_sess c s o hs k v hv]
     refine ⟨rfl, ?_⟩
     funext k'
     simp only [view, upd, hs, Option.bind_some, alookup_upsert]
-    by_cases hk : k' = k <;> simp [hk]
+    by_cases hk : k' = k <;> simp [hk, dec, hv]
   | none =>
-    rw [set_nosess_unmetered c s hs hm]
+    rw [set_nosess_unmetered c s hs hm k v hv]
     refine ⟨rfl, ?_⟩
     funext k'
     simp only [view, upd, hs, Option.bind_none, blockView, alookup_upsert]
-    by_cases hk : k' = k <;> simp [hk]
+    by_cases hk : k' = k <;> simp [hk, dec, hv]
 
 theorem view_del_gen (c : Cfg K V) (s : St K V) (hm : s.metered = false) (k : K) :
     view c (s.del c k) = upd (view c s) k none := by
@@ -841,12 +861,18 @@ theorem run_session_writes (c : Cfg K V) (s : St K V) (hm : s.metered = false)
     rcases hw op List.mem_cons_self with h | h
     · cases op <;> simp [Op.isKeyWrite] at h
       · next k v =>
-        have : (step c s (.set k v)).1 = { s with sess := some (upsert o k v) } := by
-          show (s.set c k v).1 = _
-          rw [set_sess c s o hs]
-        rw [this]
-        obtain ⟨o', h'⟩ := ih { s with sess := some (upsert o k v) } hm _ rfl hw'
-        exact ⟨o', h'⟩
+        by_cases hv : v = c.tomb
+        · have : (step c s (.set k v)).1 = s := by
+            show (s.set c k v).1 = _
+            rw [hv, set_tomb]
+          rw [this]
+          exact ih s hm o hs hw'
+        · have : (step c s (.set k v)).1 = { s with sess := some (upsert o k v) } := by
+            show (s.set c k v).1 = _
+            rw [set_sess c s o hs k v hv]
+          rw [this]
+          obtain ⟨o', h'⟩ := ih { s with sess := some (upsert o k v) } hm _ rfl hw'
+          exact ⟨o', h'⟩
       · next k =>
         have : (step c s (.del k)).1 = { s with sess := some (upsert o k c.tomb) } := by
           show s.del c k = _
